@@ -53,7 +53,8 @@ PROPS['C09'] = {
 
 PROPS['C06'] = {
     'module': 'SuironVerif.Props.C06',
-    'theorems': ['Suiron.C06.unify_extends', 'Suiron.C06.unify_result_wf'],
+    'theorems': ['Suiron.C06.unify_extends', 'Suiron.C06.unify_result_wf', 'Suiron.C06.unify_general', 'Suiron.C06.unify_no_false_failure',
+                 'Suiron.C06.unify_keeps_wf', 'Suiron.C06.failure_means_no_unifier'],
     'oracles': ['C06'],
     'suites': {
         'quick': unify_runs('C06', 4000, [[], ['--anon']], exhaustive=[([], 1)]),
@@ -63,6 +64,10 @@ PROPS['C06'] = {
     'rule': U_RULE,
     'design_ref': '5.6',
     'assumptions': [
+        "PARTIAL: proved are E (earlier bindings kept), G (every unifier validating the prior set validates the result: no more is bound than by an mgu), C (no false "
+        "failure: a reported failure means no unifier extends the prior set) and the preservation of well-formedness, all against the first-order reading of "
+        "Spec/FOSubst.lean (tail-variable cells denote their variable, counts and names are representation); S (the resolved result makes both terms identical) is "
+        "not proved and is decided by the oracle",
         "oracle on the implementation (anon-free, function-free cases): success agrees with Robinson unification with occurs check under the prior "
         "substitution (occurs-check situations dropped); every earlier binding is kept verbatim; both operands resolve to the same term; the resolved "
         "values of all variables are a variant of the reference mgu under one variable bijection",
@@ -586,10 +591,11 @@ LEVEL_TEXT = {
            'backtracking are decided by comparing captured stdout per request with the reference machine.',
     'C05': 'Proved in Lean for all nodes, knowledge bases, global states and fuel values: a request that answers none leaves an exhausted node, and an '
            'exhausted node answers none again with the global state (output, counter, ticks) unchanged, for any number of further requests.',
-    'C06': 'Proved in Lean for all well-formed operands, substitution sets and fuel: a successful unification keeps every earlier binding verbatim and only '
-           'adds bindings of previously unbound variables (to terms that are neither `$_` nor function calls). Agreement with a reference mgu (soundness, '
-           'generality, no false failure) is decided on the implementation by the oracle over random and exhaustive universes and by the correspondence '
-           'with the model; the corresponding theorems are work in progress and are not claimed.',
+    'C06': 'PARTIAL proof. Proved in Lean for all well-formed function-free operands, substitution sets, candidate unifiers and fuel: a successful unification keeps every '
+           'earlier binding verbatim (E); every unifier of the operands that validates the prior set also validates the result, i.e. the result binds no more than a most '
+           'general unifier (G); when such a unifier exists unification never reports failure (C); the result set is well formed again. Not proved: S (the resolved result '
+           'makes both operands identical) - decided on the implementation by a reference unifier over random sequences and all ordered pairs of a 60-term universe '
+           'under 10 prior sets, and by the correspondence with the model.',
     'C07': 'PARTIAL proof: symmetric dispatch lemmas (constants; term facing a variable; empty list facing a list pattern) are proved for all inputs; the '
            'full symmetry statement is decided on the implementation by running every generated pair in both orders (random + all ordered pairs of a '
            '60-term universe under 10 priors) and by the model correspondence.',
